@@ -379,6 +379,37 @@ func c12(c *Ctx) {
 	c.Rule("R9", "E1 atomic section (shared with C02.R2)", "every delta collect method empties its map of attribute sets inside the collecting critical section: the limiter counts the sets of the current cycle only, so the first L-1 sets of a cycle keep their identity", 4)
 	ruleDeltaAtomic(c, ax, "R9")
 
+	// an observable id names exactly the measures of its latest registration: the registry entry is replaced, not extended
+	for _, nm := range []string{"(*pipeline).addInt64Measure", "(*pipeline).addFloat64Measure"} {
+		fn := c.Fn(mx, "R7", nm)
+		if fn == nil {
+			continue
+		}
+		sg := fn.Obj.Type().(*types.Signature).Params()
+		if sg.Len() != 2 {
+			continue
+		}
+		ps := []types.Object{sg.At(0), sg.At(1)}
+		n, bad := 0, ""
+		inspectNoLit(fn.Body(), func(nd ast.Node) bool {
+			as, ok := nd.(*ast.AssignStmt)
+			if !ok || len(as.Lhs) != 1 || len(as.Rhs) != 1 {
+				return true
+			}
+			ie, ok := unparen(as.Lhs[0]).(*ast.IndexExpr)
+			if !ok || !sameVar(minfo, ie.Index, ps[0]) {
+				return true
+			}
+			n++
+			if !sameVar(minfo, as.Rhs[0], ps[1]) {
+				bad = exprStr(as.Rhs[0])
+			}
+			return true
+		})
+		c.Check(n == 1 && bad == "", "R7", "sdk/metric|"+nm+"|the entry of an observable id is replaced by the measures given", at(mx.M, fn.Pos()), "registry[id] = m",
+			"the registry entry becomes "+bad+": registering the same observable again (another casing of its name resolves to the same aggregator) leaves the shared measure in the list twice and every observation is aggregated twice")
+	}
+
 	c.Rule("R5", "E3 dominance", "drop aggregation and de-duplication: a nil measure is never appended or registered; a measure whose aggregator id was already seen is not appended twice", 4)
 	ruleInserterDedup(c, mx, "R5")
 	if fn := c.Fn(mx, "R5", "(*inserter).cachedAggregator"); fn != nil {
